@@ -7,6 +7,7 @@ pub mod asmcommon;
 pub mod c01;
 pub mod c04;
 pub mod c05;
+pub mod c17;
 pub mod c19;
 pub mod c20;
 
@@ -15,6 +16,7 @@ pub fn run(ctx: &Ctx) -> i32 {
         "C01" => c01::run(ctx),
         "C04" => c04::run(ctx),
         "C05" => c05::run(ctx),
+        "C17" => c17::run(ctx),
         "C19" => c19::run(ctx),
         "C20" => c20::run(ctx),
         other => {
@@ -41,6 +43,7 @@ pub fn replay(ctx: &Ctx, path: &Path) -> i32 {
             "C01" => c01::replay(ctx, &case),
             "C04" => c04::replay(ctx, &case),
             "C05" => c05::replay(ctx, &case),
+            "C17" => c17::replay(ctx, &case),
             "C19" => c19::replay(ctx, &case),
             "C20" => c20::replay(ctx, &case),
             _ => None,
